@@ -10,6 +10,29 @@ from .report import loc_of
 
 
 def _single(paths, what):
+    if len(paths) == 2:
+        # `match usize::try_from(x) { Ok(n) => Some(n), Err(_) => None }` written out: two paths that
+        # differ only in which variant the symbolic conversion result has -- the same value as
+        # `usize::try_from(x).ok()`
+        def key(p):
+            r = p["ret"]
+            cs = [c for c in p["state"].conds if c[0] == "opaque" and c[1] == "disc"]
+            if len(cs) != 1:
+                return None
+            if r[0] == "enum" and r[3] == "Some" and r[4][0][0] == "symval" and r[4][0][1][0] == "okval" and cs[0][3] == 0 \
+                    and cs[0][2] == repr(("symres", r[4][0][1][1])):
+                return ("ok", r[4][0][1][1])
+            if r[0] == "enum" and r[3] == "None" and cs[0][3] == 1:
+                return ("none", cs[0][2])
+            return None
+        ka, kb = key(paths[0]), key(paths[1])
+        if ka and kb and {ka[0], kb[0]} == {"ok", "none"}:
+            ok, no = (paths[0], paths[1]) if ka[0] == "ok" else (paths[1], paths[0])
+            x = (ka if ka[0] == "ok" else kb)[1]
+            if (kb if ka[0] == "ok" else ka)[1] == repr(("symres", x)) and ok["cells"] == no["cells"]:
+                merged = dict(ok)
+                merged["ret"] = ("symopt", ("ok", x))
+                return merged
     if len(paths) != 1:
         raise Undecided("%d paths in %s" % (len(paths), what))
     return paths[0]
@@ -189,8 +212,33 @@ def check_ctr_backend(rep, fb):
                 rep.ob("par.closed-form.out", inst, T.bequal(pout[1], exp, F), "parallel keystream == n successive one-block results (n symbolic)", loc_of(be.par), computed=T.bshow(pout[1]), expected=T.bshow(exp))
                 pcn = _find_nonce(pst)[1]
                 rep.ob("par.closed-form.state", inst, T.iequal(pcn[2][ctrf][1], T.iadd(base, T.isize(w, NPAR)), F), "counter + n after a parallel call", loc_of(be.par), computed=T.ishow(pcn[2][ctrf][1]))
+                # batching independence proper: against the n-fold iterate of the ACTUAL one-block kernel
+                _n_fold(rep, inst, "self.%s.%s" % (fname, ctrf), base, w, out[1], cn[2][ctrf][1], pout[1], pcn[2][ctrf][1], fa.cs * CHUNKS, F, be.par)
         except (Undecided, KeyError, IndexError) as e:
             rep.undecided("ctr.ks.block", inst, str(e), loc_of(be.one))
+
+
+def _n_fold(rep, inst, cname, base, w, one_out, one_ctr, par_out, par_ctr, blen, F, body):
+    """parallel body == n-fold iterate of the one-block kernel as it is written (whatever it
+    computes): the kernel's only carried state is the counter word `cname`, which it advances by a
+    constant, so its j-th iterate is the kernel's output with the counter moved j steps."""
+    try:
+        step = T.isub(one_ctr, base)
+        if step[3]:
+            raise Undecided("one-block kernel does not advance the counter by a constant")
+        j = T.fresh("$nj")
+        v = Lin.sym(j)
+        Fj = F.copy()
+        Fj.add_ge(v)
+        Fj.add_ge(NPAR - 1 - v)
+        at_j = T.iadd(base, T.imulc(T.isize(w, v), step[2]))
+        out_j = T.bsubst(one_out, {}, {"__ivars__": {cname: at_j}}, Fj)
+        exp = T.bnorm((("m", j, ZERO, NPAR, blen, out_j),), F)
+        rep.ob("par.n-fold.out", inst, T.bequal(par_out, exp, F), "parallel keystream == n-fold iterate of the one-block kernel as written (n symbolic)", loc_of(body), computed=T.bshow(par_out), expected=T.bshow(exp))
+        end = T.iadd(base, T.imulc(T.isize(w, NPAR), step[2]))
+        rep.ob("par.n-fold.state", inst, T.iequal(par_ctr, end, F), "counter after a parallel call == after n one-block calls", loc_of(body), computed=T.ishow(par_ctr), expected=T.ishow(end))
+    except (Undecided, KeyError, IndexError, TypeError) as e:
+        rep.undecided("par.n-fold", inst, str(e), loc_of(body))
 
 
 def _find_nonce(state):
@@ -341,6 +389,7 @@ def check_belt(rep, fb, parts=("def", "rem", "pos", "par", "export")):
             exp = T.bnorm((("m", j, ZERO, NPAR, lin(16), S.belt_ks(base, T.iadd(T.isize(w, v), T.iconst(w, 1)), Fj)),), F)
             rep.ob("par.closed-form.out", inst, T.bequal(pout[1], exp, F), "parallel keystream == n successive one-block results", loc_of(be.par), computed=T.bshow(pout[1]), expected=T.bshow(exp))
             rep.ob("par.closed-form.state", inst, T.iequal(pst[sf][1], T.iadd(base, T.isize(w, NPAR)), F), "s + n after a parallel call", loc_of(be.par), computed=T.ishow(pst[sf][1]))
+            _n_fold(rep, inst, "self." + sf, base, w, out[1], st[sf][1], pout[1], pst[sf][1], lin(16), F, be.par)
             _unproved(rep, "belt.no-panic", inst + "::gen_par_ks_blocks", pp, be.par)
         sv = T.ivar(w, "self." + of)
         if not other:
